@@ -364,11 +364,35 @@ def counter_cases(tier, rng, sizes):
                     yield mline('CTR', cid, n, key, iv, 'nopadding', 'rt', msg), 'ctr/counter-boundary'
 
 
+def random_cases(tier, rng, count):
+    """seeded random stream: messages up to 5 blocks (quick) / 16 blocks (thorough), random keys, IVs, counters"""
+    maxb = 5 if tier == 'quick' else 16
+    sizes = [8, 16, 16, 32, 64, 128] if tier == 'quick' else [8, 16, 16, 32, 64, 128, 2, 4, 6, 12, 24, 48]
+    for _ in range(count):
+        n = rng.choice(sizes)
+        cid = rng.choice(['rot', 'aff'])
+        mode = rng.choice(MODES)
+        pad = rng.choice(admissible(mode))
+        key = rb(rng, n)
+        L = rng.choice([rng.randrange(0, maxb * n + 1), rng.randrange(0, maxb + 1) * n, rng.randrange(0, 2 * n + 1)])
+        iv = rb(rng, n) if mode in ('CBC', 'CTS_CBC') else None
+        if mode == 'CTR':
+            w = n - n // 2
+            iv = rng.choice([None, rb(rng, n), rb(rng, n // 2) + ((1 << (8 * w)) - 1 - rng.randrange(0, maxb + 1)).to_bytes(w, 'big')])
+        msg = rb(rng, L)
+        verb = rng.choice(['enc', 'rt', 'rt', 'enc2', 'dec'])
+        if verb == 'dec':
+            if not in_domain(mode, n, key, iv, pad, msg): continue
+            msg = ref_encrypt(mode, cid, n, key, iv, pad, msg)
+        yield mline(mode, cid, n, key, iv, pad, verb, msg), 'random/%s/%s' % (mode, verb)
+
+
 def cases(tier, rng):
     if tier == 'search':
         while True:
             n = rng.choice([8, 16, 16, 32, 64, 128])
             yield from toy_cases('quick', rng, [n])
+            yield from random_cases('thorough', rng, 500)
             yield from counter_cases('quick', rng, [n])
             yield from dec_cases('quick', rng, [n])
             yield from real_cases('quick', rng)
@@ -379,6 +403,7 @@ def cases(tier, rng):
     yield from dec_cases(tier, rng, sizes)
     yield from malformed_cases(tier, rng)
     yield from twice_cases(tier, rng)
+    yield from random_cases(tier, rng, 4000 if tier == 'quick' else 60000)
     yield from real_cases(tier, rng)
     if tier == 'thorough':
         # second, independent key/IV/message draw and a block length outside the library's set
